@@ -286,16 +286,16 @@ type pathCtx struct {
 	nAsserts  int
 	Site      string
 
-	model      map[int]uint64
-	modelValid bool
-	mev        *evaluator // model evaluator
-	uev        *evaluator // scratch evaluator for unary domain checks
-	pev        *evaluator // scratch evaluator for product-domain checks
-	ProdShortcuts int
+	model           map[int]uint64
+	modelValid      bool
+	mev             *evaluator // model evaluator
+	uev             *evaluator // scratch evaluator for unary domain checks
+	pev             *evaluator // scratch evaluator for product-domain checks
+	ProdShortcuts   int
 	AssertShortcuts int
-	deferred []deferredAssert
-	retain   int   // decision levels whose solver scopes are kept from the previous path (-1: none)
-	rcursor  []int // per retained depth: next position in the solver's assertion log
+	deferred        []deferredAssert
+	retain          int   // decision levels whose solver scopes are kept from the previous path (-1: none)
+	rcursor         []int // per retained depth: next position in the solver's assertion log
 
 	known      map[int]bool       // term id -> truth value implied by the PC
 	domains    map[int]*[4]uint64 // 8-bit variable id -> feasible values (over-approximation)
